@@ -56,6 +56,7 @@ func genScenario(seed int64, profile string, allow map[string]bool) *Scenario {
 		dealer, sb = 1, 0
 	}
 	sc.Blind = []int64{1, ante, dealer, sb, 2}
+	sc.MinChip = []int64{1, 1, 5, 10}[r.Intn(4)] // stacks and pots are mostly not multiples of the unit
 	if sc.Rule == "short_deck" {
 		sc.Blind = []int64{1, 1, 2, 0, 0}
 	}
@@ -67,6 +68,9 @@ func genScenario(seed int64, profile string, allow map[string]bool) *Scenario {
 	next := 0
 	newID := func() string { next++; return fmt.Sprintf("p%d", next) }
 	chips := func() int64 {
+		if r.Intn(25) == 0 {
+			return 0 // a seat reserved without chips (the player buys in later)
+		}
 		switch r.Intn(4) {
 		case 0:
 			return int64(1 + r.Intn(6))
